@@ -268,7 +268,7 @@ def check(tier, seed):
     R = C.Reporter("C12", tier, seed)
     R.gate = C.proof_gate("C12")
     rng = random.Random(seed)
-    n = 150 if tier == "quick" else 2500
+    n = 150 if tier == "quick" else 1200
     cases = corpus() + [spine_history(random.Random(7), "ones", 1), spine_history(random.Random(8), "zeros", 1)]
     cases += [spine_history(rng) for _ in range(2 if tier == "quick" else 30)]
     cases += [twin_history(rng, True)] + [twin_history(rng) for _ in range(4 if tier == "quick" else 60)]
